@@ -26,6 +26,27 @@ RULE_TEXT = ("instances = return paths of from_to, placeholder emit sites, Flow 
 ASSUMPTIONS = ["rustc MIR / Instance resolution correct"]
 
 
+def r2_emitted_code_stays(rep, fx):
+    """A jump is patched with the distance to an instruction that exists at that moment.  An instruction taken back afterwards
+    shifts everything behind it: code is cut back only wholesale - the roll-back of a rejected source and the purge of a meta
+    block, which cut the dictionary back with it - never by a builder word that thinks one of its instructions is superfluous."""
+    from .. import awrite
+    tracked = awrite.state_tracked(fx)
+    W = awrite.all_field_writes(fx, 'state', tracked)
+    n = 0
+    for fn, ws in sorted(W.items()):
+        cuts = [w for w in ws if w['field'][0] == 'code' and w['how'].startswith('call:shrink')]
+        if not cuts:
+            continue
+        n += 1
+        wholesale = any(w['field'][0] == 'dict' and w['how'].startswith('call:shrink') for w in ws)
+        rep.add('C01.R2', 'C01.R2:%s:emitted-code-stays' % fn, wholesale,
+                'cuts code back together with the dictionary (roll-back / purge of a whole context)' if wholesale else
+                '%s removes instructions it (or an earlier word) has emitted: a jump already patched to land behind them now lands one '
+                'instruction too far - `7 case 1 of 100 endof endcase 55` skips the 55 when no arm matches' % short(fn), fn, cuts[0]['at'])
+    rep.floor('C01.R2 functions that cut code back', n, 2)
+
+
 def run(rep, facts, tier):
     fx = facts['dev']
     rep.rule('C01.R1', 'jump codec exactness: from_to encodes the distance on every path, calculate adds it back')
@@ -35,6 +56,7 @@ def run(rep, facts, tier):
     rep.rule('C01.R5', 'bindings: `local` re-binds its own slot; a variable definition allocates a fresh cell, enters it in the dictionary and compiles that cell')
     r1(rep, fx)
     r2(rep, fx)
+    r2_emitted_code_stays(rep, fx)
     r3(rep, fx)
     r4(rep, fx)
     r5(rep, fx)
@@ -420,6 +442,28 @@ def r5(rep, fx):
             'the gap left by skipped `local`s is filled before the append / the append happens only for i == len' if exact or pads else
             'for i > locals.len() the value is appended at index len, not i: after a `local` in a branch that was not taken, later locals '
             'land one slot early (`: f if 1 local a then 2 local b b ; false f` reports an index error)', far.name, far.at(tgt))
+
+    # (a') at compile time a name has ONE slot.  Whoever builds Opcode::InitLocal takes the index from a search for the name
+    # among the locals declared so far and appends only when the search fails: a local declared in both branches of an `if`
+    # (two declarations, one of which runs) is then found by a later use whichever branch ran
+    n_il = 0
+    for fn in sorted(fx.fns):
+        f = fx.fns[fn]
+        if fn == far.name or 'core::clone::Clone' in fn or 'core::fmt::' in fn:
+            continue          # the VM arm / derived copies of an existing instruction
+        for bb in f.reachable_blocks():
+            for st in f.blocks[bb]['stmts']:
+                if st['k'] == 'assign' and st['rv']['k'] == 'agg' and st['rv'].get('adt') == 'opcodes::Opcode' and st['rv'].get('variant') == 'InitLocal':
+                    n_il += 1
+                    e = f.expr_of_operand(st['rv']['fields'][0])
+                    searched = any(isinstance(x, tuple) and x[0] == 'call' and x[1].rsplit('::', 1)[-1] in ('position', 'rposition', 'find', 'find_map')
+                                   for x in expr_walk(e))
+                    rep.add('C01.R5', 'C01.R5:%s:a-name-has-one-slot' % fn, searched,
+                            'the slot of `local x` is the slot x already has in this definition, a new one only for a new name' if searched else
+                            '%s gives every `local` declaration a new slot (%s) without looking for the name: `: f if 1 local r else 2 local r then r ;` '
+                            'resolves r to the slot of the second declaration, which `true f` never fills' % (short(fn), expr_str(e, -8)[:50]),
+                            fn, st.get('at'))
+    rep.floor('C01.R5 builders of Opcode::InitLocal', n_il, 1)
 
     # (b) variable definitions
     ALLOC = 'state::State::alloc_heap'
